@@ -299,6 +299,7 @@ def stage2(args):
     tier = opt(args, "--tier", "quick")
     files_rx = opt(args, "--files")
     allc = "--all-checks" in args
+    recheck = "--recheck" in args  # judge the survivors of an earlier stage 2 again (with the checks as they are now)
     s1 = load(os.path.join(out, "stage1.jsonl"))
     path = os.path.join(out, "stage2.jsonl")
     done = load(path)
@@ -312,7 +313,10 @@ def stage2(args):
         if per[k] >= per_func:
             continue
         per[k] += 1
-        if m["id"] in done:
+        if recheck:
+            if m["id"] not in done or done[m["id"]]["verdict"].startswith("killed"):
+                continue
+        elif m["id"] in done:
             continue
         ids = props_for(m["file"])
         if allc:
